@@ -39,6 +39,16 @@ Theorem C02_make_stream_table :
 Proof. exact make_stream_table. Qed.
 Print Assumptions C02_make_stream_table.
 
+Theorem C02_make_stream_text_unbuffered_rejected : forall m,
+  has_char ch_b m = false -> make_stream_call m 0%Z = None.
+Proof. exact make_stream_text_unbuffered_rejected. Qed.
+Print Assumptions C02_make_stream_text_unbuffered_rejected.
+
+Theorem C02_make_stream_call_builds : forall m b,
+  (b <> 0%Z \/ has_char ch_b m = true) -> make_stream_call m b = Some (make_stream m b).
+Proof. exact make_stream_call_builds. Qed.
+Print Assumptions C02_make_stream_call_builds.
+
 (* ---- FS-level round trips on the MemoryFS model (tied to the real MemoryFS step by step by the C01/C02 runs) ---- *)
 Theorem C02_write_then_read : forall p d s s' v, wf s -> mem_run (OWritebytes p d) s = (s', Ok v) ->
   mem_run (OReadbytes p) s' = (s', Ok (VBytes d)).
